@@ -13,6 +13,29 @@ fn raw_of_unit(x: f64) -> u64 {
     (((x.clamp(0.0, 1.0 - 1e-16)) * (1u64 << 52) as f64) as u64) << 12
 }
 
+/// the scripted outputs first, then an endless pseudo-random stream
+struct ScriptThenRandom {
+    vals: Vec<u64>,
+    pos: usize,
+    tail: SplitMix64,
+}
+impl rand::RngCore for ScriptThenRandom {
+    fn next_u32(&mut self) -> u32 {
+        self.next_u64() as u32
+    }
+    fn next_u64(&mut self) -> u64 {
+        let v = if self.pos < self.vals.len() { self.vals[self.pos] } else { self.tail.next_u64() };
+        self.pos += 1;
+        v
+    }
+    fn fill_bytes(&mut self, dst: &mut [u8]) {
+        for chunk in dst.chunks_mut(8) {
+            let b = self.next_u64().to_le_bytes();
+            chunk.copy_from_slice(&b[..chunk.len()]);
+        }
+    }
+}
+
 fn consts(e: &ExpRestricted01) -> (f64, f64, f64, f64) {
     // the fields are private; the struct derives Debug
     let s = format!("{:?}", e);
@@ -37,6 +60,7 @@ pub fn cases(args: &[String]) {
         let e = ExpRestricted01::new(lambda);
         let (_, c1, c2, c3) = consts(&e);
         for _ in 0..n {
+            crate::util::tick_idx(0, serde_json::Value::Null);
             // a script of unit draws aimed at the different branches; it is extended (same prefix) until the
             // sampler stops inside it, so that the model never sees a truncated script
             let mut us: Vec<f64> = Vec::new();
@@ -78,7 +102,32 @@ pub fn cases(args: &[String]) {
             out.push(json!({"lambda": lambda, "c": [c1, c2, c3], "draws": units, "b3s": b3s, "result": r, "used": used}));
         }
     }
-    println!("{}", json!({ "cases": out }));
+    // range clause on extreme generator outputs: every sample lies in [0,1), whatever the draws (all-ones, all-zeros,
+    // values next to every constant); after the two scripted outputs the generator continues pseudo-randomly, so the
+    // rejection loop ends as it does in use
+    let mut range_bad: Vec<Value> = Vec::new();
+    let mut range_tried = 0u64;
+    for lambda in [1e-9, 1e-3, 0.5, std::f64::consts::LN_2, 1.0, 5.0, 13.9, 14.0, 15.0, 30.0, 60.0] {
+        let e = ExpRestricted01::new(lambda);
+        let (_, c1, c2, c3) = consts(&e);
+        let top = u64::MAX;
+        let specials: Vec<u64> = vec![top, top - (1 << 12), top >> 1, 0, 1 << 12, raw_of_unit(1. / c1), raw_of_unit(c2), raw_of_unit(c3),
+                                      raw_of_unit(1. - 1e-9), raw_of_unit(1e-9)];
+        for a in &specials {
+            for b in &specials {
+                // the script: a, b, then a tail that is accepted quickly by a correct sampler
+                let tail_seed = rng.next_u64();
+                let mut srng = ScriptThenRandom { vals: vec![*a, *b], pos: 0, tail: SplitMix64::new(tail_seed) };
+                crate::util::tick(|| json!({"lambda": lambda, "raw_draws": [a, b], "then_splitmix64_seed": tail_seed}).to_string());
+                let r = e.sample(&mut srng);
+                range_tried += 1;
+                if !(r >= 0.0 && r < 1.0) && range_bad.len() < 3 {
+                    range_bad.push(json!({"lambda": lambda, "raw_draws": [a, b], "then_splitmix64_seed": tail_seed, "draws_used": srng.pos, "first_units": [unit_of(*a), unit_of(*b)], "result": r}));
+                }
+            }
+        }
+    }
+    println!("{}", json!({ "cases": out, "range_tried": range_tried, "range_bad": range_bad }));
 }
 
 /// search aid (only run after an obligation broke): empirical distribution function against
@@ -96,6 +145,7 @@ pub fn law(args: &[String]) {
         let mut cnt = [0usize; 6];
         let mut outside = 0usize;
         for _ in 0..n {
+            crate::util::tick_idx(0, serde_json::Value::Null);
             let x = e.sample(&mut rng);
             if !(0.0..1.0).contains(&x) { outside += 1; }
             for (i, t) in ts.iter().enumerate() { if x <= *t { cnt[i] += 1; } }
